@@ -92,28 +92,37 @@ def counter_ownership(ctx, rule="OWN-global-counter"):
         ctx.bad(rule, "pjax.global_counter", "used outside KeylessWrapper.__call__", f"global_counter referenced at {outside or defs}", f"src/genjax/pjax.py:{(outside or defs)[0][1]}")
     else:
         ctx.ok(rule, "pjax.global_counter", f"{len(inside)} references, all inside KeylessWrapper.__call__")
-    # KeylessWrapper instances flow only into the staged-function slot of initial_style_bind(...)(<here>, ...)
-    node, mod = fnode(ctx, PJ + "create_sample_primitive")
-    names = [unp(st.targets[0]) for st in ast.walk(node) if isinstance(st, ast.Assign) and isinstance(st.value, ast.Call) and unp(st.value.func) == "KeylessWrapper"]
-    ctx.need(len(names) == 1, "create_sample_primitive: KeylessWrapper construction not found")
-    kw = names[0]
-    okuse = 0
-    baduse = []
-    for n in ast.walk(node):
-        if isinstance(n, ast.Name) and n.id == kw and isinstance(n.ctx, ast.Load):
-            # must be args[0] of a Call whose func is a Call to initial_style_bind
-            par = [c for c in ast.walk(node) if isinstance(c, ast.Call) and c.args and c.args[0] is n]
-            if par and isinstance(par[0].func, ast.Call) and unp(par[0].func.func) == "initial_style_bind":
-                okuse += 1
-            else:
-                baduse.append(n.lineno)
+    # KeylessWrapper instances flow only into the staged-function slot of initial_style_bind(...)(<here>, ...): decided on the
+    # evaluator's terms for create_sample_primitive's returned closure (temporaries and aliases resolved)
+    ev = mk_ev(ctx)
+    dotted = PJ + "create_sample_primitive"
+    s_ = summarize(ctx, ev, dotted)
+    clo = closure_in(s_.ret)
+    ctx.need(clo is not None, "create_sample_primitive: returned sampler closure not found (anchor vanished)")
+    A, KW = ("param", "a_"), ("param", "kw_")
+    body = ev.apply_closure(clo, (("star", A),), ((None, KW),))
+    pool = [body] + [e[2] for e in ev.last_closure_summary.events if e[1] in ("call", "return") and isinstance(e[2], tuple)] \
+        + [e[2][1] for e in ev.last_closure_summary.events + s_.events if e[1] == "store"]
+    kws = list(dict.fromkeys(x for t in pool + [e[2] for e in s_.events if e[1] == "call"] for x in subterms(t) if is_call(x, name=PJ + "KeylessWrapper")))
+    ctx.need(len(kws) >= 1, "create_sample_primitive: KeylessWrapper construction not found (anchor vanished)")
+    okuse, baduse = 0, []
+    for t in pool:
+        for x in subterms(t):
+            if not is_call(x):
+                continue
+            ops = direct_args(x)
+            if any(o in kws for o in ops):
+                if is_call(x[1], name=PJ + "initial_style_bind") and x[2] and x[2][0] in kws and not any(o in kws for o in ops[1:]):
+                    okuse += 1
+                else:
+                    baduse.append(short(x, ev, 100))
+    stored = [e for e in ev.last_closure_summary.events + s_.events if e[1] == "store" and any(x in kws for x in subterms(e[2][1]))]
     others = [c for mn, mm in ctx.p.modules.items() for c in ast.walk(mm.tree) if isinstance(c, ast.Call) and unp(c.func).endswith("KeylessWrapper") and not (mn == "genjax.pjax")]
-    if baduse or others or okuse != 1:
-        ctx.bad(rule, "pjax.KeylessWrapper", "escapes the impl slot", f"keyless sampler used at lines {baduse} / constructed elsewhere: {len(others)}", ctx.loc(mod, node))
+    node, mod = fnode(ctx, dotted)
+    if baduse or others or stored or okuse < 1:
+        ctx.bad(rule, "pjax.KeylessWrapper", "escapes the impl slot", f"keyless sampler used at {sorted(set(baduse))[:3]} / stored: {len(stored)} / constructed elsewhere: {len(others)}", ctx.loc(mod, node))
     else:
         ctx.ok(rule, "pjax.KeylessWrapper", "flows only into the staged-function slot of initial_style_bind")
-
-
 
 
 def seed_fresh_interpreter(ctx, rule="OWN-seed-fresh"):
@@ -124,20 +133,28 @@ def seed_fresh_interpreter(ctx, rule="OWN-seed-fresh"):
             if isinstance(n, ast.Call) and isinstance(n.func, ast.Name) and n.func.id == "Seed" and ctx.p.resolve_name(mn, "Seed") == PJ + "Seed":
                 sites.append((mn, n))
     node, mod = fnode(ctx, PJ + "seed")
-    inner = [f for f in ast.walk(node) if isinstance(f, ast.FunctionDef) and f.name != "seed"]
-    ctx.need(len(inner) == 1, "pjax.seed: wrapper function not found")
-    w = inner[0]
-    inside = [n for mn, n in sites if mn == "genjax.pjax" and any(x is n for x in ast.walk(w))]
+    inside = [n for mn, n in sites if mn == "genjax.pjax" and any(x is n for x in ast.walk(node))]
     if len(sites) != 1 or len(inside) != 1:
         ctx.bad(rule, "pjax.Seed(...)", "constructed only inside seed.wrapped", f"{len(sites)} construction sites, {len(inside)} inside the wrapper", ctx.loc(mod, node))
     else:
-        asg = [st for st in w.body if isinstance(st, ast.Assign) and st.value is inside[0]]
-        nm = unp(asg[0].targets[0]) if asg else None
-        uses = [n for n in ast.walk(w) if isinstance(n, ast.Name) and n.id == nm and isinstance(n.ctx, ast.Load)]
-        okuse = all(any(isinstance(p, ast.Attribute) and p.value is u for p in ast.walk(w)) for u in uses)
-        key_arg = unp(inside[0].args[0]) if inside[0].args else None
-        if not asg or not okuse or key_arg != w.args.args[0].arg:
-            ctx.bad(rule, "pjax.seed.wrapped", "interpreter is call-local and seeded with the caller's key", f"Seed({key_arg}) bound to {nm}; escapes={not okuse}", ctx.loc(mod, w))
+        # term-based: the wrapper builds Seed(<its own key parameter>) on every call, uses it only as the receiver of method calls and stores it nowhere
+        ev = mk_ev(ctx)
+        ev.inline_methods_on_ctor = False
+        s_ = summarize(ctx, ev, PJ + "seed")
+        clo = closure_in(s_.ret)
+        ctx.need(clo is not None, "pjax.seed: wrapper closure not found (anchor vanished)")
+        K, A, KW = ("param", "k_"), ("param", "a_"), ("param", "kw_")
+        body = ev.apply_closure(clo, (K, ("star", A)), ((None, KW),))
+        cevs = ev.last_closure_summary.events
+        ctor = call(N(PJ + "Seed"), K)
+        pool = [body] + [e[2] for e in cevs if e[1] in ("call", "return") and isinstance(e[2], tuple)]
+        ctors = list(dict.fromkeys(x for t in pool for x in subterms(t) if is_call(x, name=PJ + "Seed")))
+        escapes = [short(x, ev, 80) for t in pool for x in subterms(t) if is_call(x) and any(o in ctors for o in direct_args(x))]
+        stored = [e for e in cevs + s_.events if e[1] == "store" and any(x in ctors for x in subterms(e[2][1]))]
+        outer = [x for e in s_.events if e[1] in ("call", "store") for x in subterms(e[2] if e[1] == "call" else e[2][1]) if is_call(x, name=PJ + "Seed")]
+        if ctors != [ctor] or escapes or stored or outer:
+            ctx.bad(rule, "pjax.seed.wrapped", "interpreter is call-local and seeded with the caller's key",
+                    f"constructions {[short(c, ev, 60) for c in ctors]}; passed on to {escapes[:2]}; stored {len(stored)}; built outside the wrapper {len(outer)}", ctx.loc(mod, node))
         else:
             ctx.ok(rule, "pjax.seed.wrapped", "fresh Seed(key) per call, used only through method calls")
     fk = []
@@ -199,27 +216,23 @@ def vmap_lane_randomness(ctx, rule="SHAPE-lanes"):
     dotted = PJ + "VmapBatchHandler._compute_outer_batch_dim"
     s = summarize(ctx, ev, dotted)
     ck = Checker(ctx, ev, lin, rule, "pjax.VmapBatchHandler._compute_outer_batch_dim", func_loc(ctx, dotted))
-    Np, AX = ("param", "n"), ("param", "axis_size")
-    for asg, leaf in all_cases(s.ret):
-        has_n = size = None
-        for c, v in asg.items():
-            r = none_test(c, Np)
-            if r is not None:
-                has_n = (not r) if v else r
-                has_n = (r != v)
-            elif c == AX:
-                size = v
-            else:
-                raise AnalysisError(f"{dotted}: unrecognised condition {short(c, ev)}")
-        if has_n:
-            want = ("tuple", ())
-        elif size:
-            want = ("tuple", (AX,))
-        else:
-            want = ("tuple", ())
-        if has_n is None:
-            continue
-        ck.eq(f"outer batch dim [args batched={has_n}, axis_size given={size}]", leaf, want)
+    # evaluated over the four situations (operands batched or not × axis_size given or not), not matched against a shape
+    from ..absint import Model, Unknown
+    node, mod = fnode(ctx, dotted)
+    pn = [a.arg for a in node.args.args if a.arg != "self"]
+    ctx.need(len(pn) == 2, f"{dotted}: expected (n, axis_size) parameters")
+    for has_n in (True, False):
+        for size in (True, False):
+            m = Model()
+            m.bind(("param", pn[0]), 3 if has_n else None)
+            m.bind(("param", pn[1]), 5 if size else None)
+            try:
+                got = m.ev(s.ret)
+            except Unknown as e:
+                raise AnalysisError(f"{dotted}: cannot evaluate [{has_n}, {size}]: {e}")
+            want = () if has_n or not size else (5,)
+            if got != want:
+                ck.fail(f"outer batch dim [args batched={has_n}, axis_size given={size}]", f"found {got!r}, expected {want!r}")
     ck.done()
     dotted = PJ + "VmapBatchHandler._handle_modular_vmap"
     s = summarize(ctx, ev, dotted)
@@ -295,11 +308,25 @@ def sample_shape_threading(ctx, rule="ROLE-sample_shape"):
             ck.fail("binds through sample_binder", f"found {short(body, ev, 200)}")
         else:
             sb = calls[0][1]
+            # replayed over both situations (sample_shape given / not given) with the kwargs dict mutated in program order
+            from ..absint import Model, Opq, Unknown, run_mutations
             shape = ev.kwget(sb[3], "sample_shape")
-            if shape is None or not any(is_call(x) and x[1] == ("attr", K, "get") and x[2] and x[2][0] == C("sample_shape") for x in subterms(shape)):
-                ck.fail("sample_shape taken from the call's keyword arguments", f"found {short(shape or NONE, ev)}")
-            if "pop('sample_shape')" not in src and 'pop("sample_shape")' not in src:
-                ck.fail("sample_shape removed from the keyword arguments handed to the distribution", "no pop('sample_shape')")
+            cevs = ev.last_closure_summary.events
+            for present in (True, False):
+                kd = {"sample_shape": (7,), "x": 1} if present else {"x": 1}
+                m = Model()
+                m.bind(K, kd)
+                m.bind(A, (Opq("a0"),))
+                try:
+                    run_mutations(m, cevs, K)
+                    got = m.ev(shape) if shape is not None else None
+                    args, kwargs = m.args_of(calls[0])
+                except Unknown as e:
+                    raise AnalysisError(f"pjax.wrap_sampler: cannot evaluate [sample_shape given={present}]: {e}")
+                if got != ((7,) if present else ()):
+                    ck.fail("sample_shape taken from the call's keyword arguments", f"with sample_shape {'(7,)' if present else 'absent'} the binder receives {got!r}")
+                if "sample_shape" in kwargs or kwargs.get("x") != 1 or list(args) != [Opq("a0")]:
+                    ck.fail("sample_shape removed from the keyword arguments handed to the distribution", f"the sampler is applied to {args!r}, {kwargs!r}")
             for fld in ("name", "support"):
                 ck.eq(f"{fld} forwarded", ev.kwget(sb[3], fld) or NONE, ("param", fld))
             ck.eq("keyful sampler forwarded", sb[2][0] if sb[2] else NONE, ("param", "keyful_sampler"))
@@ -762,40 +789,45 @@ def lowering_guard_terms(ctx, rule="GUARD-lowering"):
     ctx.need(clo is not None and clo[0] == "closure", "InitialStylePrimitive.lowering not found")
     PR = ("param", "params_")
     r = ev.apply_closure(clo, (("param", "c_"), ("star", ("param", "a_"))), ((None, PR),))
-    atoms = []
-    for x in subterms(r):
-        if x[0] == "ifexp":
-            bool_atoms(x[1], atoms)
-    names = {}
-    for a in atoms:
-        if a == ("cmp", "in", C("lowering_warning"), PR):
-            names[a] = "warn_in"
-        elif a == N(PJ + "lowering_warning"):
-            names[a] = "warn_flag"
-        elif a == ("cmp", "in", C("lowering_exception"), PR):
-            names[a] = "exc_in"
-        elif a == N(PJ + "enforce_lowering_exception"):
-            names[a] = "enforce"
-        else:
-            raise AnalysisError(f"{construct}: unrecognised condition {short(a, ev)}")
-    ctx.need({"exc_in", "enforce"} <= set(names.values()), f"{construct}: guard conditions not found ({sorted(names.values())})")
+    # decided by replaying the rule's guarded events (first live raise wins) over the 16 situations: flag values × carried params
+    from ..absint import Model, Opq, Unknown, Raised
+    cevs = ev.last_closure_summary.events
+    ctx.need(any(e[1] == "raise" for e in cevs) or any(x[0] == "raise" for x in subterms(r or NONE)), f"{construct}: no raise found in the lowering rule (anchor vanished)")
     problems = []
-    for bits in itertools.product([True, False], repeat=len(atoms)):
-        asg = dict(zip(atoms, bits))
-        sem = {names[a]: v for a, v in asg.items()}
-        leaf = resolve_all(r, asg)
-        raises = leaf[0] == "raise"
-        want = sem["exc_in"] and sem["enforce"] and not (sem.get("warn_in", False) and sem.get("warn_flag", False))
-        when = ", ".join(f"{k}={v}" for k, v in sorted(sem.items()))
-        if raises != want:
-            problems.append(f"[{when}] should {'raise' if want else 'lower'} but {'raises' if raises else 'lowers'}")
-        elif raises and leaf[1] != ("idx", PR, C("lowering_exception")):
-            problems.append(f"[{when}] raises {short(leaf[1], ev)} instead of the carried lowering exception")
+    EXC, WMSG = Opq("the-carried-exception"), "warn-text"
+    for warn_flag, enforce, warn_in, exc_in in itertools.product([True, False], repeat=4):
+        m = Model()
+        m.bind(N(PJ + "lowering_warning"), warn_flag)
+        m.bind(N(PJ + "enforce_lowering_exception"), enforce)
+        pd = {"other": 1}
+        if warn_in:
+            pd["lowering_warning"] = WMSG
+        if exc_in:
+            pd["lowering_exception"] = EXC
+        m.bind(PR, pd)
+        raised = None
+        try:
+            for g, k, pl, ln, q in cevs:
+                if k == "raise" and m.live(g):
+                    raised = m.ev(pl)
+                    break
+            if raised is None and r is not None:
+                v = m.ev(r)
+                if isinstance(v, Raised):
+                    raised = m.ev(v.what)
+        except Unknown as e:
+            raise AnalysisError(f"{construct}: cannot evaluate [{warn_flag}, {enforce}, {warn_in}, {exc_in}]: {e}")
+        want = exc_in and enforce and not (warn_in and warn_flag)
+        when = f"enforce={enforce}, exc_in={exc_in}, warn_flag={warn_flag}, warn_in={warn_in}"
+        if (raised is not None) != want:
+            problems.append(f"[{when}] should {'raise' if want else 'lower'} but {'raises' if raised is not None else 'lowers'}")
+        elif raised is not None and raised != EXC:
+            problems.append(f"[{when}] raises {raised!r} instead of the carried lowering exception")
     if problems:
         for p_ in dict.fromkeys(problems):
             ctx.bad(rule, construct, p_[:160], p_, loc)
     else:
-        ctx.ok(rule, construct, f"{2 ** len(atoms)} cases: raises the carried exception iff it is carried and enforced and the warning override is off")
+        ctx.ok(rule, construct, "16 cases: raises the carried exception iff it is carried and enforced and the warning override is off")
     # flags: module-level constants, never written elsewhere
     m = ctx.p.modules["genjax.pjax"]
     for flag, want in (("enforce_lowering_exception", True), ("lowering_warning", False)):
@@ -949,6 +981,34 @@ def vmap_context_guard_terms(ctx, rule="GUARD-plain-vmap"):
         ctx.ok(rule, construct, "raises on every path where ctx != 'modular_vmap'")
 
 
+def _logdensity_case(ev, outs, vm, batch_tree, in_tree, impl):
+    problems = []
+    if not vm:
+        problems.append("the density is vmapped")
+    for v in vm:
+        if ev.kwget(v[3], "in_axes") != batch_tree and (len(v[2]) < 2 or v[2][1] != batch_tree):
+            problems.append(f"jax.vmap(density, in_axes = tree rebuilt from batch_axes[num_consts:]) (found in_axes={short(ev.kwget(v[3], 'in_axes') or NONE, ev, 120)})")
+        f = v[2][0] if v[2] else NONE
+        if f != impl:
+            if f[0] == "closure":
+                A_, K_ = ("param", "aa_"), ("param", "kk_")
+                b = ev.apply_closure(f, (A_, K_), ())
+                if b != ("call", impl, (("star", A_),), ((None, K_),)):
+                    problems.append(f"the site's own density is vmapped (found {short(b, ev, 120)})")
+            else:
+                problems.append(f"the site's own density is vmapped (found {short(f, ev, 80)})")
+    # operands
+    applied = [x for x in subterms(outs) if is_call(x) and is_call(x[1], name=PJ + "create_log_density_primitive")]
+    for a in dict.fromkeys(applied):
+        ops = tuple(y for x in a[2] for y in (x[1][1] if x[0] == "star" and x[1][0] in ("tuple", "list") else (x,)))
+        ok = ops == (("star", in_tree),) or ops == (("idx", in_tree, C(0)), ("idx", in_tree, C(1)))
+        if not ok:
+            problems.append(f"applied to the operands rebuilt from vector_args[num_consts:] (found {short(('tuple', a[2]), ev, 160)})")
+    if not applied:
+        problems.append("re-bound as a log-density primitive")
+    return problems
+
+
 def logdensity_batch_terms(ctx, rule="ROLE-logdensity-batch"):
     """The log-density batch rule vmaps the site's own density with the in-axes tree rebuilt from this site's batch axes
     (constants skipped), applies it to the operands rebuilt the same way, and declares axis 0 iff some operand is batched."""
@@ -970,30 +1030,13 @@ def logdensity_batch_terms(ctx, rule="ROLE-logdensity-batch"):
     it = items(r)
     if it is None or len(it) != 2:
         raise AnalysisError(f"{construct}: return shape not recognised")
-    outs, axes = it
-    vm = list(dict.fromkeys(x for x in subterms(outs) if is_call(x, name="jax.vmap")))
-    if not vm:
-        problems.append("the density is vmapped")
-    for v in vm:
-        if ev.kwget(v[3], "in_axes") != batch_tree and (len(v[2]) < 2 or v[2][1] != batch_tree):
-            problems.append(f"jax.vmap(density, in_axes = tree rebuilt from batch_axes[num_consts:]) (found in_axes={short(ev.kwget(v[3], 'in_axes') or NONE, ev, 120)})")
-        f = v[2][0] if v[2] else NONE
-        if f != impl:
-            if f[0] == "closure":
-                A_, K_ = ("param", "aa_"), ("param", "kk_")
-                b = ev.apply_closure(f, (A_, K_), ())
-                if b != ("call", impl, (("star", A_),), ((None, K_),)):
-                    problems.append(f"the site's own density is vmapped (found {short(b, ev, 120)})")
-            else:
-                problems.append(f"the site's own density is vmapped (found {short(f, ev, 80)})")
-    # operands
-    applied = [x for x in subterms(outs) if is_call(x) and is_call(x[1], name=PJ + "create_log_density_primitive")]
-    for a in dict.fromkeys(applied):
-        ok = a[2] == (("star", in_tree),) or a[2] == (("idx", in_tree, C(0)), ("idx", in_tree, C(1)))
-        if not ok:
-            problems.append(f"applied to the operands rebuilt from vector_args[num_consts:] (found {short(('tuple', a[2]), ev, 160)})")
-    if not applied:
-        problems.append("re-bound as a log-density primitive")
+    outs0, axes = it
+    from .util import resolve_deep
+    YK = ("idx", PR, C("yes_kwargs"))
+    for yk in (True, False):
+        outs = resolve_deep(outs0, {YK: yk})
+        vm = list(dict.fromkeys(x for x in subterms(outs) if is_call(x, name="jax.vmap")))
+        problems += _logdensity_case(ev, outs, vm, batch_tree, in_tree, impl)
     ax = items(axes)
     n = call(N(PJ + "static_dim_length"), BA, call(N("builtins.tuple"), VA))
     n2 = call(N(PJ + "static_dim_length"), BA, VA)
